@@ -324,6 +324,20 @@ pub fn cases(tier: &str) -> Vec<Case> {
             }
         }
     }
+    // store sizes around and beyond the page size of the recovery / query code (10), so that a migration that converts
+    // the queues page by page is covered: bound = 45 tracked transfers and 23 pending replies (thorough), 34 / 11 (quick)
+    let big_p: Vec<usize> = if tier == "thorough" { vec![9, 10, 11, 12, 20, 21, 22, 23, 33, 34, 45] } else { vec![9, 10, 11, 12, 21, 22, 23, 34] };
+    let big_w: Vec<usize> = if tier == "thorough" { vec![0, 10, 11, 23] } else { vec![0, 11] };
+    for npk in big_p {
+        for nwait in &big_w {
+            for variant in 0..4 {
+                v.push(v110_case(npk, *nwait, variant));
+            }
+        }
+    }
+    for nwait in [9usize, 10, 11, 12, 21, 22, 23] {
+        v.push(v110_case(2, nwait, 1));
+    }
     for which in 0..2 {
         for flag in [true, false] {
             v.push(old_paths_case(which, flag));
